@@ -721,9 +721,9 @@ def optics_cases(draw):
 def suites(tier):
     return [
         Suite("planck", check_planck, strategy=planck_cases(),
-              examples={"quick": 1500, "thorough": 25000}),
+              examples={"quick": 1500, "thorough": 12000}),
         Suite("spectra", check_spectra, strategy=spectra_cases(),
-              examples={"quick": 500, "thorough": 8000}),
+              examples={"quick": 500, "thorough": 4000}),
         Suite("optics", check_optics, strategy=optics_cases(),
-              examples={"quick": 1500, "thorough": 25000}),
+              examples={"quick": 1500, "thorough": 12000}),
     ]
